@@ -139,6 +139,7 @@ theorem minimalMSep_sound (G : MG) (hwf : G.WF) (hb : NoUndirAtHead G) (hsl : No
   · rename_i hIR
     have hIR' := subset_iff.mp (of_not_not hIR)
     simp only at h
+    unfold finish at h
     split at h
     · cases h
     · cases h
